@@ -106,7 +106,7 @@ def run(ctx):
     td.validate_calls(ctx, MODULE, "Trace_Escapes", "Trace_Escapes.cfg", rel_traces, label="s2c-rel")
     ctx.cov["exhaustive"] = True
     # 3. code -> spec: random inputs
-    items = random_items(ctx.seed * 7919 + 21, ctx.pick(600, 20000))
+    items = random_items(ctx.seed * 7919 + 21, ctx.pick(300, 20000))
     traces = td.record(MODULE, items)
     td.validate_calls(ctx, MODULE, "Trace_Escapes", "Trace_Escapes.cfg", traces)
     ctx.cov["rule"] = ("inputs: every concatenation of <= %d tokens of each kind's token table (html, url, utf8 bytes, "
